@@ -11,6 +11,7 @@ import (
 	"errors"
 	"fmt"
 	"image"
+	"reflect"
 	"sync"
 
 	"github.com/evanoberholster/imagemeta/imagehash/transforms"
@@ -18,15 +19,25 @@ import (
 
 //go:generate msgp
 
+// isNilImage reports whether img is nil or holds a nil pointer (a declared
+// but unset *image.RGBA, *image.YCbCr ...), whose Bounds method would panic.
+func isNilImage(img image.Image) bool {
+	if img == nil {
+		return true
+	}
+	v := reflect.ValueOf(img)
+	return v.Kind() == reflect.Ptr && v.IsNil()
+}
+
 // NewPHash64 is a Perception Hash function returns a hash computation of phash.
 // Implementation follows: http://www.hackerfactor.com/blog/index.php?/archives/432-Looks-Like-It.html
 // Optimized for performance and reduced memory footprint.
 func NewPHash64(img image.Image) (phash PHash64, err error) {
 	var size image.Point
-	if img != nil {
+	if !isNilImage(img) {
 		size = img.Bounds().Size()
 	}
-	if img == nil || size.X != 64 || size.Y != 64 {
+	if isNilImage(img) || size.X != 64 || size.Y != 64 {
 		err = errors.New("error image size incompatible. PHash requires 64x64 image")
 		return
 	}
@@ -53,10 +64,10 @@ func NewPHash64(img image.Image) (phash PHash64, err error) {
 // Optimized for performance and reduced memory footprint.
 func NewPHash256(img image.Image) (phash PHash256, err error) {
 	var size image.Point
-	if img != nil {
+	if !isNilImage(img) {
 		size = img.Bounds().Size()
 	}
-	if img == nil || size.X != 256 || size.Y != 256 {
+	if isNilImage(img) || size.X != 256 || size.Y != 256 {
 		err = errors.New("error image size incompatible. PHash256 requires 256x256 image")
 		return
 	}
@@ -84,7 +95,7 @@ func NewPHash256(img image.Image) (phash PHash256, err error) {
 // Implementation follows
 // http://www.hackerfactor.com/blog/index.php?/archives/432-Looks-Like-It.html
 func NewAHash(img image.Image) (ahash Ahash, err error) {
-	if img == nil {
+	if isNilImage(img) {
 		err = ErrImageObject
 		return
 	}
